@@ -41,7 +41,9 @@ EuiCases == {[k |-> "eui", net |-> n, plen |-> p, mac |-> m] : n \in Nets, p \in
 
 \* error table: what kind of prefix / mac -> outcome class
 ErrCases == {[k |-> "err", prefix |-> p, mac |-> m] :
-               p \in {"v6", "v4addr", "v4dotted_short", "garbage", "empty", "int", "none", "bytes"},
+               \* v6_overflow: a prefix longer than /64 whose network address plus the interface identifier does not fit
+               \* 128 bits - a value error like the others, whatever the address library calls it
+               p \in {"v6", "v4addr", "v4dotted_short", "garbage", "empty", "int", "none", "bytes", "v6_overflow"},
                m \in {"ok", "five_groups", "garbage", "empty", "none"}}
 ErrRef(x) == IF x.prefix \in {"int", "none", "bytes"} THEN "TypeError"
              ELSE IF x.prefix # "v6" \/ x.mac # "ok" THEN "ValueErrorOrTypeError"
@@ -50,11 +52,14 @@ ErrRef(x) == IF x.prefix \in {"int", "none", "bytes"} THEN "TypeError"
 (* parse_host_port(escape_ipv6(host) + ':' + port) = (host, port); no port -> default *)
 \* scope1 / scope15: the shortest and the longest legal zone index (1 and 15 characters)
 \* name_mixed / ipv6_upper: letter case is part of the host as given (it comes back as it went in)
-Hosts == {"name", "fqdn", "name_mixed", "ipv4", "ipv6", "ipv6_upper", "ipv6_full", "ipv6_scoped", "ipv6_scope1", "ipv6_scope15", "ipv6_v4mapped"}
+\* scope25 / scope2512: zone ids that begin like a percent-escape of '%' (they are zone ids, not escapes)
+Hosts == {"name", "fqdn", "name_mixed", "ipv4", "ipv6", "ipv6_upper", "ipv6_full", "ipv6_scoped", "ipv6_scope1", "ipv6_scope15",
+          "ipv6_scope25", "ipv6_scope2512", "ipv6_v4mapped"}
 HpCases == {[k |-> "hp", host |-> h, port |-> p, dflt |-> d] :
-              h \in Hosts, p \in {"absent", "0", "1", "80", "65535"}, d \in {"none", "1234", "0", "65535"}}
+              h \in Hosts, p \in {"absent", "0", "1", "80", "65535"}, d \in {"none", "1234", "0", "65535", "str5672"}}      \* str5672: the default given as the text '5672' (it comes back as a number)
 HpRef(x) == [host |-> x.host, port |-> IF x.port = "absent" THEN x.dflt ELSE x.port]
-EscapeRef(h) == h \in {"ipv6", "ipv6_upper", "ipv6_full", "ipv6_scoped", "ipv6_scope1", "ipv6_scope15", "ipv6_v4mapped"}      \* bracketed iff IPv6
+EscapeRef(h) == h \in {"ipv6", "ipv6_upper", "ipv6_full", "ipv6_scoped", "ipv6_scope1", "ipv6_scope15", "ipv6_scope25",
+                       "ipv6_scope2512", "ipv6_v4mapped"}      \* bracketed iff IPv6
 
 (* urlsplit: components in, components out *)
 UrlCases == {[k |-> "url", scheme |-> s, user |-> u, host |-> h, port |-> p, path |-> pa, query |-> q, frag |-> f,
